@@ -123,6 +123,16 @@ theorem c19_pinned_crash_data_file_directory :
     compileWith false (docWith [(.str "default_data_file", .str "/tmp")] suiteOk executorOk expOk)
       { unreadable := ["/tmp"] } = .crash .osError := by decide
 
+/-- an environment variable needs a value (`nullable: false`, fix "reject an environment
+variable without a value in the configuration"): `env: {X: ~}` is rejected by the schema with a
+diagnostic on every level, instead of being accepted and ending in a traceback at execution -/
+theorem c19_env_value_required :
+    schemaOK (docWith [(.str "runs", .map [(.str "env", .map [(.str "X", .null)])])] suiteOk executorOk expOk) = false ∧
+    schemaOK (docWith [] (suiteWith [(.str "env", .map [(.str "X", .null)])] (.list [.str "b1"])) executorOk expOk) = false ∧
+    schemaOK (docWith [(.str "runs", .map [(.str "env", .map [(.str "X", .str "")])])] suiteOk executorOk expOk) = true ∧
+    compile (docWith [(.str "runs", .map [(.str "env", .map [(.str "X", .null)])])] suiteOk executorOk expOk) {} = .uiError := by
+  decide
+
 /-- the full statement is false of the pinned tree -/
 theorem c19_never_crash_pinned_fails : ∃ d cli e, compileWith false d cli = .crash e :=
   ⟨.null, {}, .coreError, c19_pinned_crash_empty_document⟩
